@@ -509,13 +509,14 @@ class SetupAccessory:
     """HAP R2 5.6 pair-setup, accessory side, dual-valued."""
 
     def __init__(self, U: Universe, code: bytes, salt: bytes, b: int, acc_id: bytes, ltsk: int,
-                 client_name: int = 41, ctrl_ltsk_name: int = 12, lenient: bool = False):
+                 client_name: int = 41, ctrl_ltsk_name: int = 12, lenient: bool = False, b_value=None):
         srp_selfcheck()
         self.U, self.code, self.salt, self.bname = U, bytes(code), bytes(salt), b
         self.acc_id, self.ltsk = bytes(acc_id), ltsk
         self.client_name, self.ctrl_ltsk_name = client_name, ctrl_ltsk_name
         self.lenient = lenient            # a malicious accessory: answers M3 with its own proof even if M1 is wrong
-        self.b = int.from_bytes(hashlib.sha512(b"verif|srp-b|" + str(b).encode()).digest()[:32], "big")
+        self.b = b_value if b_value is not None else \
+            int.from_bytes(hashlib.sha512(b"verif|srp-b|" + str(b).encode()).digest()[:32], "big")
         self.v = _powm(SRP_G, srp_x(self.salt, self.code), SRP_N)
         self.B = (SRP_K * self.v + _powm(SRP_G, self.b, SRP_N)) % SRP_N
         self.code_v, self.salt_v = lit(self.code), lit(self.salt)
@@ -653,3 +654,16 @@ def oracle_setup(m2, m4, m6, transport, code: bytes, a, A):
     if ident is None:
         return None, "m6:identifier-not-text"
     return (ident, bytes(sub[T_PK])), None
+
+
+def srp_exchange_values(code: bytes, salt: bytes, a: int, b: int) -> dict:
+    """all SRP values of an honest exchange with client secret a and server secret b (server-side formulas)"""
+    v = _powm(SRP_G, srp_x(salt, code), SRP_N)
+    A = _powm(SRP_G, a, SRP_N)
+    B = (SRP_K * v + _powm(SRP_G, b, SRP_N)) % SRP_N
+    u = int.from_bytes(_H(_pad(A), _pad(B)), "big")
+    S = pow(A * pow(v, u, SRP_N), b, SRP_N)
+    K = _H(_pad(S))
+    M1 = srp_client_proof(salt, _pad(A), _pad(B), K)
+    M2 = srp_server_proof(_pad(A), M1, K)
+    return dict(A=_pad(A), B=_pad(B), S=_pad(S), K=K, M1=M1, M2=M2)
